@@ -97,7 +97,12 @@ def getSpreadValues(value, pos):
 
 
 def getFuncallString(fn, args):
-    return f"{fn.name}({args.toStringAbbrev()})"
+    # used while an error is on its way out: rendering the arguments (a
+    # failing _str_ member, a list that contains itself) must not replace it
+    try:
+        return f"{fn.name}({args.toStringAbbrev()})"
+    except Exception:
+        return f"{fn.name}(...)"
 
 
 def invoke(fn, names_, args, environment, pos):
